@@ -18,20 +18,21 @@ def U(id, entry, harness, src, **kw):
     d = dict(id=id, harness=harness, entry=entry, sources=src, enforce=None, replace=[], timeout=900, functions=[], cbmc_flags=["--unwind", "8", "--unwinding-assertions", "--object-bits", "10"])
     d.update(kw); return d
 UNITS = [
+    dict(id="alloc_coverage", kind="static", script="alloc_scan.py", harness="", entry="", sources=[], what="every function of the configured sources that calls p_malloc/p_malloc0/p_realloc/p_strdup directly is listed under 'functions' by a C18 unit (one stated exception)"),
     U("pmem_vtable", "h_pmem", "misc.c", ["pmem.c"], defines=["UNIT_PMEM"], canaries=2, functions=["p_malloc", "p_malloc0", "p_realloc", "p_free", "p_mem_set_vtable"], cbmc_flags=["--object-bits", "10"]),
     U("dir", "h_dir", "dir.c", ["pdir-posix.c", "pdir.c", "pstring.c"], canaries=3, functions=["p_dir_new", "p_dir_get_next_entry", "p_dir_free", "p_dir_get_path", "p_dir_entry_free"],
       bound="path and entry names of at most 4 characters", replay={"driver": "C18_replay.c", "mode": "dir", "args": []}),
     U("rwlock_general_new", "h_rwlock_new", "misc.c", ["prwlock-general.c"], defines=["UNIT_RWLOCK_NEW"], canaries=2, functions=["p_rwlock_new", "p_rwlock_free"],
       replay={"driver": "C18_replay.c", "mode": "rwlock", "args": [], "sources": {"all_except": ["prwlock-posix.c"], "plus": ["prwlock-general.c"]}}),
-    U("error", "h_error", "misc.c", ["perror.c", "pstring.c"], defines=["UNIT_ERROR"], canaries=2, functions=["p_error_new_literal", "p_error_copy", "p_error_set_error", "p_error_set_error_p", "p_error_clear", "p_error_free", "p_strdup"],
+    U("error", "h_error", "misc.c", ["perror.c", "pstring.c"], defines=["UNIT_ERROR"], canaries=2, functions=["p_error_new", "p_error_new_literal", "p_error_copy", "p_error_set_error", "p_error_set_error_p", "p_error_set_message", "p_error_clear", "p_error_free", "p_strdup"],
       bound="messages of at most 3 characters"),
     dict(id="ini_parse_allocfail", harness="../C16/ini.c", entry="h_parse_robust", sources=["pinifile.c", "pstring.c", "plist.c"], enforce=None, replace=[], timeout=1200, canaries=3, mem_gb=24,
          defines=["ROBUST_AFTER_SECTION", "ALLOC_STRICT", "INI_LINES=2", "INI_LINE_MAX=4"], cbmc_flags=["--unwind", "16", "--unwinding-assertions", "--object-bits", "10"],
-         functions=["p_ini_file_parse", "pp_ini_file_parameter_new", "pp_ini_file_section_new"], bound="'[s]' followed by one line of <= 4 arbitrary bytes",
+         functions=["p_ini_file_new", "p_ini_file_parse", "pp_ini_file_parameter_new", "pp_ini_file_section_new", "p_ini_file_free"], bound="'[s]' followed by one line of <= 4 arbitrary bytes",
          replay={"driver": "C18_replay.c", "mode": "ini", "args": []}),
 ] + [dict(id="ini_getter_allocfail_%d" % g, harness="../C16/ini.c", entry="h_getters_allocfail", sources=["pinifile.c", "pstring.c", "plist.c"], enforce=None, replace=[], timeout=900, canaries=2,
           defines=["GETTER=%d" % g, "INI_LINES=2", "INI_LINE_MAX=4"], cbmc_flags=["--unwind", "12", "--unwinding-assertions", "--object-bits", "10"],
-          functions=[["p_ini_file_sections"], ["p_ini_file_keys"], ["p_ini_file_parameter_string", "pp_ini_file_find_parameter"], ["p_ini_file_parameter_list"]][g],
+          functions=[["p_ini_file_sections", "pp_ini_file_prepend_copy"], ["p_ini_file_keys", "pp_ini_file_prepend_copy"], ["p_ini_file_parameter_string", "pp_ini_file_find_parameter"], ["p_ini_file_parameter_list", "pp_ini_file_append_copy", "pp_ini_file_find_parameter"]][g],
           bound="fixed parsed object: one section, one key, value '{a b}'", replay={"driver": "C18_replay.c", "mode": "ini_getter%d" % g, "args": []}) for g in range(4)] + [
     U("tree_new", "h_tree_new", "misc2.c", ["ptree.c", "ptree-bst.c", "ptree-rb.c", "ptree-avl.c"], defines=["UNIT_TREE_NEW"], canaries=2, functions=["p_tree_new_full", "p_tree_free"], cbmc_flags=["--object-bits", "10"]),
     U("hash_table_new", "h_ht_new", "misc2.c", ["phashtable.c", "plist.c"], defines=["UNIT_HT_NEW"], canaries=2, functions=["p_hash_table_new", "p_hash_table_free"],
@@ -42,26 +43,26 @@ UNITS = [
       bound="fixed-size initialisation loops fully unwound: complete, unwinding assertions on"),
     U("hash_ctx_sha1", "h_hash_ctx", "misc2.c", ["pcryptohash-sha1.c"], defines=["UNIT_HASH_CTX", 'ALG_SRC="pcryptohash-sha1.c"', "ALG_TYPE=PHashSHA1", "ALG_NEW=p_crypto_hash_sha1_new", "ALG_FREE=p_crypto_hash_sha1_free"], canaries=2, functions=["p_crypto_hash_sha1_new", "p_crypto_hash_sha1_free"], cbmc_flags=["--unwind", "100", "--unwinding-assertions"],
       bound="fixed-size initialisation loops fully unwound: complete, unwinding assertions on"),
-    U("hash_ctx_sha2_256", "h_hash_ctx", "misc2.c", ["pcryptohash-sha2-256.c"], defines=["UNIT_HASH_CTX", 'ALG_SRC="pcryptohash-sha2-256.c"', "ALG_TYPE=PHashSHA2_256", "ALG_NEW=p_crypto_hash_sha2_256_new", "ALG_FREE=p_crypto_hash_sha2_256_free"], canaries=2, functions=["p_crypto_hash_sha2_256_new", "p_crypto_hash_sha2_256_free"], cbmc_flags=["--unwind", "100", "--unwinding-assertions"],
+    U("hash_ctx_sha2_256", "h_hash_ctx", "misc2.c", ["pcryptohash-sha2-256.c"], defines=["UNIT_HASH_CTX", 'ALG_SRC="pcryptohash-sha2-256.c"', "ALG_TYPE=PHashSHA2_256", "ALG_NEW=p_crypto_hash_sha2_256_new", "ALG_FREE=p_crypto_hash_sha2_256_free"], canaries=2, functions=["p_crypto_hash_sha2_256_new", "p_crypto_hash_sha2_256_free", "pp_crypto_hash_sha2_256_new_internal"], cbmc_flags=["--unwind", "100", "--unwinding-assertions"],
       bound="fixed-size initialisation loops fully unwound: complete, unwinding assertions on"),
-    U("hash_ctx_sha2_224", "h_hash_ctx", "misc2.c", ["pcryptohash-sha2-256.c"], defines=["UNIT_HASH_CTX", 'ALG_SRC="pcryptohash-sha2-256.c"', "ALG_TYPE=PHashSHA2_256", "ALG_NEW=p_crypto_hash_sha2_224_new", "ALG_FREE=p_crypto_hash_sha2_256_free"], canaries=2, functions=["p_crypto_hash_sha2_224_new", "p_crypto_hash_sha2_256_free"], cbmc_flags=["--unwind", "100", "--unwinding-assertions"],
+    U("hash_ctx_sha2_224", "h_hash_ctx", "misc2.c", ["pcryptohash-sha2-256.c"], defines=["UNIT_HASH_CTX", 'ALG_SRC="pcryptohash-sha2-256.c"', "ALG_TYPE=PHashSHA2_256", "ALG_NEW=p_crypto_hash_sha2_224_new", "ALG_FREE=p_crypto_hash_sha2_256_free"], canaries=2, functions=["p_crypto_hash_sha2_224_new", "p_crypto_hash_sha2_256_free", "pp_crypto_hash_sha2_256_new_internal"], cbmc_flags=["--unwind", "100", "--unwinding-assertions"],
       bound="fixed-size initialisation loops fully unwound: complete, unwinding assertions on"),
-    U("hash_ctx_sha2_512", "h_hash_ctx", "misc2.c", ["pcryptohash-sha2-512.c"], defines=["UNIT_HASH_CTX", 'ALG_SRC="pcryptohash-sha2-512.c"', "ALG_TYPE=PHashSHA2_512", "ALG_NEW=p_crypto_hash_sha2_512_new", "ALG_FREE=p_crypto_hash_sha2_512_free"], canaries=2, functions=["p_crypto_hash_sha2_512_new", "p_crypto_hash_sha2_512_free"], cbmc_flags=["--unwind", "100", "--unwinding-assertions"],
+    U("hash_ctx_sha2_512", "h_hash_ctx", "misc2.c", ["pcryptohash-sha2-512.c"], defines=["UNIT_HASH_CTX", 'ALG_SRC="pcryptohash-sha2-512.c"', "ALG_TYPE=PHashSHA2_512", "ALG_NEW=p_crypto_hash_sha2_512_new", "ALG_FREE=p_crypto_hash_sha2_512_free"], canaries=2, functions=["p_crypto_hash_sha2_512_new", "p_crypto_hash_sha2_512_free", "pp_crypto_hash_sha2_512_new_internal"], cbmc_flags=["--unwind", "100", "--unwinding-assertions"],
       bound="fixed-size initialisation loops fully unwound: complete, unwinding assertions on"),
-    U("hash_ctx_sha2_384", "h_hash_ctx", "misc2.c", ["pcryptohash-sha2-512.c"], defines=["UNIT_HASH_CTX", 'ALG_SRC="pcryptohash-sha2-512.c"', "ALG_TYPE=PHashSHA2_512", "ALG_NEW=p_crypto_hash_sha2_384_new", "ALG_FREE=p_crypto_hash_sha2_512_free"], canaries=2, functions=["p_crypto_hash_sha2_384_new", "p_crypto_hash_sha2_512_free"], cbmc_flags=["--unwind", "100", "--unwinding-assertions"],
+    U("hash_ctx_sha2_384", "h_hash_ctx", "misc2.c", ["pcryptohash-sha2-512.c"], defines=["UNIT_HASH_CTX", 'ALG_SRC="pcryptohash-sha2-512.c"', "ALG_TYPE=PHashSHA2_512", "ALG_NEW=p_crypto_hash_sha2_384_new", "ALG_FREE=p_crypto_hash_sha2_512_free"], canaries=2, functions=["p_crypto_hash_sha2_384_new", "p_crypto_hash_sha2_512_free", "pp_crypto_hash_sha2_512_new_internal"], cbmc_flags=["--unwind", "100", "--unwinding-assertions"],
       bound="fixed-size initialisation loops fully unwound: complete, unwinding assertions on"),
-    U("hash_ctx_sha3_224", "h_hash_ctx", "misc2.c", ["pcryptohash-sha3.c"], defines=["UNIT_HASH_CTX", 'ALG_SRC="pcryptohash-sha3.c"', "ALG_TYPE=PHashSHA3", "ALG_NEW=p_crypto_hash_sha3_224_new", "ALG_FREE=p_crypto_hash_sha3_free"], canaries=2, functions=["p_crypto_hash_sha3_224_new", "p_crypto_hash_sha3_free"], cbmc_flags=["--unwind", "100", "--unwinding-assertions"],
+    U("hash_ctx_sha3_224", "h_hash_ctx", "misc2.c", ["pcryptohash-sha3.c"], defines=["UNIT_HASH_CTX", 'ALG_SRC="pcryptohash-sha3.c"', "ALG_TYPE=PHashSHA3", "ALG_NEW=p_crypto_hash_sha3_224_new", "ALG_FREE=p_crypto_hash_sha3_free"], canaries=2, functions=["p_crypto_hash_sha3_224_new", "p_crypto_hash_sha3_free", "pp_crypto_hash_sha3_new_internal"], cbmc_flags=["--unwind", "100", "--unwinding-assertions"],
       bound="fixed-size initialisation loops fully unwound: complete, unwinding assertions on"),
-    U("hash_ctx_sha3_256", "h_hash_ctx", "misc2.c", ["pcryptohash-sha3.c"], defines=["UNIT_HASH_CTX", 'ALG_SRC="pcryptohash-sha3.c"', "ALG_TYPE=PHashSHA3", "ALG_NEW=p_crypto_hash_sha3_256_new", "ALG_FREE=p_crypto_hash_sha3_free"], canaries=2, functions=["p_crypto_hash_sha3_256_new", "p_crypto_hash_sha3_free"], cbmc_flags=["--unwind", "100", "--unwinding-assertions"],
+    U("hash_ctx_sha3_256", "h_hash_ctx", "misc2.c", ["pcryptohash-sha3.c"], defines=["UNIT_HASH_CTX", 'ALG_SRC="pcryptohash-sha3.c"', "ALG_TYPE=PHashSHA3", "ALG_NEW=p_crypto_hash_sha3_256_new", "ALG_FREE=p_crypto_hash_sha3_free"], canaries=2, functions=["p_crypto_hash_sha3_256_new", "p_crypto_hash_sha3_free", "pp_crypto_hash_sha3_new_internal"], cbmc_flags=["--unwind", "100", "--unwinding-assertions"],
       bound="fixed-size initialisation loops fully unwound: complete, unwinding assertions on"),
-    U("hash_ctx_sha3_384", "h_hash_ctx", "misc2.c", ["pcryptohash-sha3.c"], defines=["UNIT_HASH_CTX", 'ALG_SRC="pcryptohash-sha3.c"', "ALG_TYPE=PHashSHA3", "ALG_NEW=p_crypto_hash_sha3_384_new", "ALG_FREE=p_crypto_hash_sha3_free"], canaries=2, functions=["p_crypto_hash_sha3_384_new", "p_crypto_hash_sha3_free"], cbmc_flags=["--unwind", "100", "--unwinding-assertions"],
+    U("hash_ctx_sha3_384", "h_hash_ctx", "misc2.c", ["pcryptohash-sha3.c"], defines=["UNIT_HASH_CTX", 'ALG_SRC="pcryptohash-sha3.c"', "ALG_TYPE=PHashSHA3", "ALG_NEW=p_crypto_hash_sha3_384_new", "ALG_FREE=p_crypto_hash_sha3_free"], canaries=2, functions=["p_crypto_hash_sha3_384_new", "p_crypto_hash_sha3_free", "pp_crypto_hash_sha3_new_internal"], cbmc_flags=["--unwind", "100", "--unwinding-assertions"],
       bound="fixed-size initialisation loops fully unwound: complete, unwinding assertions on"),
-    U("hash_ctx_sha3_512", "h_hash_ctx", "misc2.c", ["pcryptohash-sha3.c"], defines=["UNIT_HASH_CTX", 'ALG_SRC="pcryptohash-sha3.c"', "ALG_TYPE=PHashSHA3", "ALG_NEW=p_crypto_hash_sha3_512_new", "ALG_FREE=p_crypto_hash_sha3_free"], canaries=2, functions=["p_crypto_hash_sha3_512_new", "p_crypto_hash_sha3_free"], cbmc_flags=["--unwind", "100", "--unwinding-assertions"],
+    U("hash_ctx_sha3_512", "h_hash_ctx", "misc2.c", ["pcryptohash-sha3.c"], defines=["UNIT_HASH_CTX", 'ALG_SRC="pcryptohash-sha3.c"', "ALG_TYPE=PHashSHA3", "ALG_NEW=p_crypto_hash_sha3_512_new", "ALG_FREE=p_crypto_hash_sha3_free"], canaries=2, functions=["p_crypto_hash_sha3_512_new", "p_crypto_hash_sha3_free", "pp_crypto_hash_sha3_new_internal"], cbmc_flags=["--unwind", "100", "--unwinding-assertions"],
       bound="fixed-size initialisation loops fully unwound: complete, unwinding assertions on"),
     U("hash_ctx_gost3411", "h_hash_ctx", "misc2.c", ["pcryptohash-gost3411.c"], defines=["UNIT_HASH_CTX", 'ALG_SRC="pcryptohash-gost3411.c"', "ALG_TYPE=PHashGOST3411", "ALG_NEW=p_crypto_hash_gost3411_new", "ALG_FREE=p_crypto_hash_gost3411_free"], canaries=2, functions=["p_crypto_hash_gost3411_new", "p_crypto_hash_gost3411_free"], cbmc_flags=["--unwind", "100", "--unwinding-assertions"],
       bound="fixed-size initialisation loops fully unwound: complete, unwinding assertions on"),
-    U("library_loader", "h_loader", "../C20/loader.c", ["plibraryloader-posix.c"], canaries=2, timeout=300, functions=["p_library_loader_new", "p_library_loader_free"], cbmc_flags=[]),
-] + pick("C01", ["mutex_new_free"]) + pick("C02", ["posix_new_free"]) + pick("C03", ["cond_new_free"]) + pick("C05", ["current", "get_tls_key", "local_new_free", "create_full", "create_internal"]) + \
+    U("library_loader", "h_loader", "../C20/loader.c", ["plibraryloader-posix.c"], canaries=2, timeout=300, functions=["p_library_loader_new", "p_library_loader_free", "p_library_loader_get_last_error"], cbmc_flags=[]),
+] + pick("C01", ["mutex_new_free"]) + pick("C02", ["posix_new_free"]) + pick("C03", ["cond_new_free"]) + pick("C05", ["current", "get_tls_key", "local_new_free", "create_full", "create_internal", "set_name_internal"]) + \
     pick("C06", ["new", "platform_key"]) + pick("C07", ["new"]) + pick("C08", ["new_free_own"]) + pick("C10", ["new", "accept"], "sock") + pick("C11", ["dispatch"]) + \
     pick("C12", ["bst_insert", "rb_insert", "avl_insert"], "trees") + pick("C15", ["insert", "list_append_prepend"]) + pick("C17", ["new_from_native", "new_any", "new_loopback", "new_text", "get_address"]) + pick("C09", ["receive_from"], "sock") + pick("C16", ["strchomp"])
 REQUIRE_CONFIGURED = ["pmem.c", "pdir-posix.c"]
@@ -70,5 +71,7 @@ LEVEL_TEXT = ("pmem.c itself over a user allocator table that may fail (this jus
               "INI parse and the allocating INI getters, mutex/cond/rwlock/TLS/thread constructors, semaphore, shared memory (+ its semaphore), shm buffer, sockets (new/accept), hash dispatcher, tree insert (3 variants), hash table and list "
               "insert, socket addresses (native, any, loopback, text, to-text), receive_from's sender address, p_strchomp -- with every allocation allowed to fail: no invalid pointer use (CBMC pointer checks), the documented failure value, nothing allocated during the call stays "
               "allocated once the returned objects are freed, pre-existing objects intact (map/list views unchanged on failure). Loop-free constructors are unbounded; walkers are bounded (see bounds).")
-LEVEL_NOTE = ("Not every public entry point that allocates is covered (p_file/p_process/time profiler/p_strtok are not); the list above is what is. "
-              "Trusted: env models of the OS calls each unit uses. Bounded units inherit their bounds (trees H<=3, lists/tables L<=4, INI one 4-byte line). The input regions of the known findings of C07 (existing segment of size 0) and C08 (existing buffer opened with a smaller size) are excluded from the shared units here; they are decided and reported under C07/C08.")
+LEVEL_NOTE = ("Coverage is a checked static fact (unit alloc_coverage, lib/alloc_scan.py, re-computed from /repo on every run): every function of the configured sources that calls p_malloc/p_malloc0/p_realloc/p_strdup "
+              "directly is listed by a unit of this check; the one stated exception is p_ipc_unix_get_temp_dir (System V / IRIX key path, never taken by the configured POSIX code). A new allocating function without a unit makes the check UNDECIDED. "
+              "Indirect allocation through p_list_append/prepend is covered where the caller owns freshly allocated data (INI parse and getters); hash-table listings only link existing pointers. "
+              "Trusted: env models of the OS calls each unit uses. Bounded units inherit their bounds (trees H<=3, lists/tables L<=4, INI one 4-byte line, names of a few characters). The input regions of the known findings of C07 (existing segment of size 0) and C08 (existing buffer opened with a smaller size) are excluded from the shared units here; they are decided and reported under C07/C08.")
